@@ -33,6 +33,8 @@ type SrvCfg struct {
 	RefLimit    int64  `json:"refLimit"`  // 0: default
 	RateLimit   int    `json:"rateLimit"`
 	RefLimitCls string `json:"refLimitCls"` // class name of the referrers limit for the model: "unl" | "k1" | "k2"
+	GraceMs     int    `json:"graceMs,omitempty"`  // > 0: grace period in milliseconds (C12: session expiry, repository cache pruning)
+	GCFreqMs    int    `json:"gcFreqMs,omitempty"` // > 0: background collection every so many milliseconds (C12)
 }
 
 // DefaultCfg is the configuration most histories run under. The collection that Close performs on a directory store
@@ -84,6 +86,12 @@ func (c SrvCfg) toConfig(root string) config.Config {
 		conf.Storage.GC.GracePeriod = time.Hour
 	} else {
 		conf.Storage.GC.GracePeriod = -1
+	}
+	if c.GraceMs > 0 {
+		conf.Storage.GC.GracePeriod = time.Duration(c.GraceMs) * time.Millisecond
+	}
+	if c.GCFreqMs > 0 {
+		conf.Storage.GC.Frequency = time.Duration(c.GCFreqMs) * time.Millisecond
 	}
 	conf.Storage.GC.RepoUploadMax = c.UploadMax
 	conf.Storage.GC.Untagged = bp(c.Untagged)
@@ -150,6 +158,10 @@ func (s *Srv) Do(method, target string, hdr map[string]string, body []byte, lenK
 				done <- HTTPResp{Status: 0, Panic: fmt.Sprintf("%v\n%s", r, debug.Stack())}
 			}
 		}()
+		if goroutineStart != nil {
+			goroutineStart(actor, method+" "+target)
+			defer goroutineEnd()
+		}
 		s.S.ServeHTTP(rec, req)
 		res := rec.Result()
 		b, _ := io.ReadAll(res.Body)
@@ -164,6 +176,10 @@ func (s *Srv) Do(method, target string, hdr map[string]string, body []byte, lenK
 }
 
 var watchdog = 20 * time.Second
+
+// set by the lock recorder (C12): called at the start / end of the goroutine that serves one request
+var goroutineStart func(actor, what string)
+var goroutineEnd func()
 
 func mkTemp(prefix string) string {
 	d, err := os.MkdirTemp("", prefix)
